@@ -53,7 +53,13 @@ ASSUMPTIONS = [
     "current sample > 0 and the crossing is a maximum in physical time (elevation rate + -> -)",
     "direction of a crossing = direction in physical time (an apside, a node, an AOS are the same physical event "
     "whichever way the iteration runs); chronological order = monotone in the direction of the iteration",
-    "samples whose watched quantity is within 1e-9 (relative to its natural scale) of zero are don't-care: 'changes sign' is ambiguous there",
+    "samples whose watched quantity is within 1e-9 (relative to its natural scale) of zero are don't-care: 'changes sign' is ambiguous there; "
+    "so is a step in which _bisect returned the sample object itself as the event (crossing within the last microsecond before the sample, "
+    "in practice an exact-zero sample): the sample then carries the event attribute and is yielded twice -- recorded, not judged",
+    "an AnomalyListener event located at the +-pi wrap-around of the wrapped difference (seen only with Ephem(method='linear') on "
+    "near-circular orbits) satisfies every clause of the statement literally and is recorded (counter observed:...), not judged",
+    "umbra / penumbra: a sample closer than the statement's tolerance (0.01 s / 0.5 s) to the oracle's cone crossing may be classified either way",
+    "backward iterations of KeplerNum / Ephem and exceptions of the numerical integrator itself are the subject of C08 / C06 and are not exercised here",
 ]
 
 TWO_PI = 2 * math.pi
